@@ -122,13 +122,16 @@ def make_dimer_recipe(rng, relation):
         if d in (1, 2, 3, 4, 9):
             break
     lim = max(1, 6 // d)
-    pa0 = base_points(rng, shape, n, lim)
-    pa, pb = rotate_exact(pa0, q)            # pb = pa Q (row vectors)
     mirror = relation == "mirrored"
-    if mirror:
-        pb = [[p[0], p[1], -p[2]] for p in pb]
-    shift = [rng.randint(-3, 3) for _ in range(3)]
-    pb = [[p[k] + shift[k] for k in range(3)] for p in pb]
+    while True:                              # keep |coordinates| <= 19 (+1 noise) so that the centred sets stay small
+        pa0 = base_points(rng, shape, n, lim if shape == "generic" else 4)
+        pa, pb = rotate_exact(pa0, q)        # pb = pa Q (row vectors)
+        if mirror:
+            pb = [[p[0], p[1], -p[2]] for p in pb]
+        shift = [rng.randint(-3, 3) for _ in range(3)]
+        pb = [[p[k] + shift[k] for k in range(3)] for p in pb]
+        if max(abs(c) for p in pa + pb for c in p) <= 19 and any(any(p) for p in pa0):
+            break
     declared = qconj(q)                      # the code aligns centred b onto centred a: a_c = b_c Q^-1
     if relation == "noisy":
         pb = [[c + rng.randint(-1, 1) for c in p] for p in pb]
